@@ -136,14 +136,16 @@ def mapper_cache_path(sid, metric, knobs):
 
 def run_mapper(sid, metric, knobs=(), arch=None, wl=None, use_cache=True, eval_in_detail=True):
     """Run the real mapper (serial) -> dict(rows=[{energy, latency, edp, usage{}, tree}], error=None)."""
-    p = mapper_cache_path(sid, metric + ("" if eval_in_detail else "-nodetail"), knobs)
+    if wl is None:
+        wl, arch = FAMILY[sid]
+    # the cache key covers the full spec text, not just its name
+    spec_key = f"{jhash(S.spec_yaml(arch, wl)):x}"
+    p = mapper_cache_path(sid + "#" + spec_key, metric + ("" if eval_in_detail else "-nodetail"), knobs)
     if use_cache and p.exists():
         return json.loads(p.read_text())
     from accelforge.mapper.FFM.main import map_workload_to_arch
 
     afx.serial()
-    if wl is None:
-        wl, arch = FAMILY[sid]
     spec = S.build_spec(arch, wl, S.Knobs(metric, tuple(knobs)))
     mems = [m.name for m in arch.memories]
     res = {"sid": sid, "metric": metric, "knobs": [list(k) for k in knobs], "rows": [], "error": None}
